@@ -396,6 +396,33 @@ func (g *gen17) top(d int, allowVar, allowBot bool) *T17 {
 	return g.ty(d, allowVar, allowBot)
 }
 
+// replaceLeaf: a copy of t in which one sub-term (never a map key) is replaced by the
+// constant kind k (top / bot); the constant alone if t has no sub-terms.
+func replaceLeaf(t *T17, k string, r *rng) *T17 {
+	n := t.clone()
+	type slot struct {
+		parent *T17
+		i      int
+	}
+	var slots []slot
+	var walk func(x *T17)
+	walk = func(x *T17) {
+		for i, a := range x.A {
+			if !(x.K == "map" && i == 0) {
+				slots = append(slots, slot{x, i})
+			}
+			walk(a)
+		}
+	}
+	walk(n)
+	if len(slots) == 0 {
+		return &T17{K: k}
+	}
+	sl := slots[r.intn(len(slots))]
+	sl.parent.A[sl.i] = &T17{K: k}
+	return n
+}
+
 // markShared picks a composite sub-term that occurs (structurally) more than once and
 // gives all its occurrences one Share id; or duplicates a sub-term into a sibling.
 func (g *gen17) markShared(t *T17) {
@@ -613,6 +640,7 @@ func genCase17(r *rng) *Case17 {
 	g.vars = append(g.vars, []string{"a1", "a11", "ab1"}[:nv]...)
 	c := &Case17{Share: r.chance(0.5), GC: []string{"sparse", "sparse", "dense", "none"}[r.intn(4)]}
 	d := 1 + r.intn(4)
+	nest := false
 	switch r.intn(10) {
 	case 0, 1, 2:
 		c.Mode = "equals"
@@ -629,7 +657,42 @@ func genCase17(r *rng) *Case17 {
 	case 3, 4, 5, 6:
 		c.Mode = "unify"
 		c.X = g.top(d, true, r.chance(0.2))
-		switch r.intn(7) {
+		switch r.intn(8) {
+		case 7:
+			// twins: one variable of the pattern faces two copies of a type that differ only
+			// in a bottom / top constant inside one of them (a variable stands for ONE type;
+			// bottom is absorbed on the right only, top on the left only)
+			if len(g.vars) == 0 {
+				g.vars = []string{"a1"}
+			}
+			p := g.ty(1+r.intn(3), false, false)
+			q := replaceLeaf(p, r.pick([]string{"bot", "bot", "top"}), r)
+			if r.chance(0.5) {
+				p, q = q, p
+			}
+			v := func() *T17 { return &T17{K: "var", N: g.vars[0]} }
+			pa, pb := v(), v()
+			if r.chance(0.4) {
+				w := r.pick([]string{"list", "maybe"})
+				p, q = &T17{K: w, A: []*T17{p}}, &T17{K: w, A: []*T17{q}}
+				if r.chance(0.5) {
+					pa, pb = &T17{K: w, A: []*T17{pa}}, &T17{K: w, A: []*T17{pb}}
+				}
+			}
+			switch r.intn(3) {
+			case 0:
+				c.X = &T17{K: "tuple", A: []*T17{p, q}}
+				c.Y = &T17{K: "tuple", A: []*T17{pa, pb}}
+			case 1:
+				c.X = &T17{K: "obj", F: []string{"p", "q"}, A: []*T17{p, q}}
+				c.Y = &T17{K: "obj", F: []string{"q", "p"}, A: []*T17{pb, pa}}
+			default:
+				c.X = &T17{K: "fun", N: "f", A: []*T17{p, q}}
+				c.Y = &T17{K: "fun", N: "f", A: []*T17{pa, pb}}
+			}
+			if r.chance(0.5) {
+				c.X, c.Y = c.Y, c.X
+			}
 		case 4, 5, 6:
 			if len(g.vars) < 2 {
 				g.vars = []string{"a1", "a11"}
@@ -749,16 +812,19 @@ func genCase17(r *rng) *Case17 {
 			}
 			c.Y = args
 		} else if r.chance(0.35) {
-			// top (the universal type) absorbs on the LEFT only
+			// top (the universal type) absorbs on the LEFT only, at any depth (see nest below)
 			c.Mode = "top"
 			c.X = &T17{K: "top"}
 			c.Y = g.ty(d, false, false)
 			c.Flip = r.chance(0.5)
+			nest = r.chance(0.6)
 		} else {
+			// bottom (the empty-container element type) is absorbed on the RIGHT only, at any depth
 			c.Mode = "bottom"
 			c.X = g.ty(d, false, false)
 			c.Y = &T17{K: "bot"}
 			c.Flip = r.chance(0.5)
+			nest = r.chance(0.6)
 		}
 	}
 	if r.chance(0.4) {
@@ -769,6 +835,12 @@ func genCase17(r *rng) *Case17 {
 				c.Y = g.instantiate(c.X)
 			}
 		}
+	}
+	if nest && c.Mode == "top" {
+		c.X = replaceLeaf(c.Y, "top", r)
+	}
+	if nest && c.Mode == "bottom" {
+		c.Y = replaceLeaf(c.X, "bot", r)
 	}
 	fixKeys(c.X)
 	fixKeys(c.Y)
